@@ -193,6 +193,13 @@ def serve (c : Case) : Outcome :=
         if c.disableEH then .response (chainError c o e)     -- returnErr = err
         else .response (handle c.debug c.head o e)           -- c.Error(err); chain sees nil
 
+/-- several requests through one Echo instance, one after the other.  Nothing of a request
+    survives into the next one: `context.Reset` clears the response, and neither the error
+    handler nor `Recover` keeps state — so every request is served as if it were the only one.
+    (That this is what the real code does — pooled contexts included — is what the
+    correspondence run checks on sequences of failing requests.) -/
+def serveAll (cs : List Case) : List Outcome := cs.map serve
+
 /-! ## wire -/
 open Wire
 
@@ -267,15 +274,16 @@ def encDoc : Doc → List String
   | .doc j => ["2", toString j]
   | .null => ["3"]
 
-/-- line: `debug head recover disableEH double pre raise` →
-    `X` (crashed) or `committed ncalls call* ndocs doc*` -/
+def encOutcome : Outcome → List String
+  | .crashed => ["X"]
+  | .response o =>
+    [encBool o.committed] ++ encList (fun c => [toString c]) o.calls ++ encList encDoc o.docs
+
+/-- line: `nreq (debug head recover disableEH double pre raise)*` →
+    `nreq (X | committed ncalls call* ndocs doc*)*` -/
 def runLine (line : String) : String :=
-  match parseLine pCase line with
+  match parseLine (list pCase) line with
   | none => "bad-op"
-  | some c =>
-    match serve c with
-    | .crashed => "X"
-    | .response o =>
-      render ([encBool o.committed] ++ encList (fun c => [toString c]) o.calls ++ encList encDoc o.docs)
+  | some cs => render (encList encOutcome (serveAll cs))
 
 end C07
